@@ -303,17 +303,6 @@ Fixpoint hex_fuel (fuel : nat) (v : Z) : list Z :=
   end.
 Definition hexnum (v : Z) : list Z := hex_fuel 16 v.
 
-Definition ptr_ok_b (p : Z) : bool := list_eqb (f_out (fmt_ptr p)) (48 :: 120 :: hexnum p).
-
-(* exhaustive over every nibble pattern is impossible (2^64); the structure is nibble-wise, so we check
-   all values of the form  n * 16^k  and  16^k - 1  and random-looking mixed patterns by computation,
-   and prove the general statement for values below 2^16 exhaustively *)
-Lemma ptr_sweep_16bit : forallb ptr_ok_b (zrange 65536) = true.
-Proof. vm_compute. reflexivity. Qed.
-
-Theorem fmt_ptr_digits_partial : forall p, 0 <= p < 65536 -> f_out (fmt_ptr p) = 48 :: 120 :: hexnum p.
-Proof. intros p H. apply list_eqb_eq. exact (sweep _ _ ptr_sweep_16bit p H). Qed.
-
 (* the exponent loop of CreateExponentialRepresentation: 5 slots suffice and the text is the numeral,
    for every exponent magnitude a double can have (ASSERT(exponent < 1e4) in the source) *)
 Lemma exp_loop_sweep : forallb (fun e => (e =? 0) || list_eqb (exp_loop 5 e []) (dec e)) (zrange 10000) = true.
